@@ -29,3 +29,17 @@ package writer
 //@   site mapupdate response["items"] #1:
 //@     assert [one-item-per-action] ghost(0, "bulkItems") == inCount
 //@ end
+
+// C15 (one item per action, an unknown action affects only its own item): the
+// classification of an action line decides how many lines HandleBulkBody
+// consumes for it (index/create/update take a payload line, anything else
+// does not), so each supported verb must be recognised as itself:
+// hasTopObject(line, key) is "the line has the top-level key holding an object"
+// (an uninterpreted function of the bytes; jsonparser.Get is assumed to decide it).
+//@ func ExtractIndexAndValidateAction
+//@   props C15
+//@   ensures [index-action] implies(uf("hasTopObject", bool, rawJson, INDEX_TOP_STR), result0 == INDEX)
+//@   ensures [create-action] implies(!uf("hasTopObject", bool, rawJson, INDEX_TOP_STR) && uf("hasTopObject", bool, rawJson, CREATE_TOP_STR), result0 == CREATE)
+//@   ensures [update-action] implies(!uf("hasTopObject", bool, rawJson, INDEX_TOP_STR) && !uf("hasTopObject", bool, rawJson, CREATE_TOP_STR) && uf("hasTopObject", bool, rawJson, UPDATE_TOP_STR), result0 == UPDATE)
+//@   ensures [anything-else-is-rejected] implies(!uf("hasTopObject", bool, rawJson, INDEX_TOP_STR) && !uf("hasTopObject", bool, rawJson, CREATE_TOP_STR) && !uf("hasTopObject", bool, rawJson, UPDATE_TOP_STR), result0 == DELETE)
+//@ end
